@@ -10,6 +10,8 @@ import contextlib
 import io
 import itertools
 import json
+
+import common
 from collections import Counter
 
 import numpy as np
@@ -27,6 +29,16 @@ def run_impl(case):
     alpha = case["alphabet"]
     dims = case["dims"]
     plan = [list(b) for b in case["script"]]
+    nz = case.get("negzero") or [False]
+    nzk = [0]
+
+    def val(c):
+        """coordinate value; a zero is given as +0.0 or -0.0 (numerically equal, so the same point)"""
+        v = alpha[c]
+        if v == 0.0:
+            nzk[0] += 1
+            return -0.0 if nz[nzk[0] % len(nz)] else 0.0
+        return v
 
     class Scripted(BaseSampler):
         def __init__(self):
@@ -38,7 +50,7 @@ def run_impl(case):
             rows = plan[self.k] if self.k < len(plan) else []
             self.k += 1
             # the script holds as many rows as the *model-free* planner decided; the oracle checks sizes
-            return np.array([[alpha[c] for c in r] for r in rows], dtype=float).reshape(len(rows), dims)
+            return np.array([[val(c) for c in r] for r in rows], dtype=float).reshape(len(rows), dims)
 
         def find_and_get_duplicates(self, new_points, existing_points):
             self.snap.append(new_points.copy())
@@ -47,7 +59,7 @@ def run_impl(case):
             return r
 
     smp = Scripted()
-    hist = np.array([[alpha[c] for c in r] for r in case["hist"]], dtype=float).reshape(len(case["hist"]), dims)
+    hist = np.array([[val(c) for c in r] for r in case["hist"]], dtype=float).reshape(len(case["hist"]), dims)
     hist0 = hist.copy()
     err = None
     with contextlib.redirect_stdout(io.StringIO()):
@@ -75,14 +87,15 @@ def plan_case(rng, dims, nalpha, bs, budget, nhist):
     Sizes are found by running the real code incrementally (no Python copy of the model is involved): the
     script is extended batch by batch with the size the implementation requested.
     """
-    alpha_pool = [-3.5, -1.0, -0.25, 0.0, 0.5, 1.0, 2.75, 1e6]
+    alpha_pool = [-3.5, -1.0, -0.25, 0.5, 1.0, 2.75, 1e6]
     rng.shuffle(alpha_pool)
-    alpha = sorted(alpha_pool[:nalpha])
+    alpha = sorted(alpha_pool[:nalpha - 1] + [0.0])      # zero is always there: it has two float representations
     pt = lambda: tuple(rng.below(nalpha) for _ in range(dims))  # noqa: E731
     hist = [pt() for _ in range(nhist)]
     if hist and rng.below(3) == 0:
         hist.append(rng.choice(hist))  # history with its own repeats
-    case = {"dims": dims, "alphabet": alpha, "bs": bs, "budget": budget, "hist": [list(h) for h in hist], "script": []}
+    case = {"dims": dims, "alphabet": alpha, "bs": bs, "budget": budget, "hist": [list(h) for h in hist], "script": [],
+            "negzero": [bool(rng.below(2)) for _ in range(7)] if rng.below(2) else None}
 
     def draw(cur):
         k = rng.below(10)
@@ -203,7 +216,7 @@ def run(chk, replay=None):
     if replay:
         cases = [json.loads(open(replay).read())["case"]]
     else:
-        for f in sorted((chk.case_dir.parents[2] / "corpus" / "C12").glob("*.json")):
+        for f in sorted((common.CORPUS / "C12").glob("*.json")):
             cases.append(json.loads(f.read_text())["case"])
         n_random = 2000 if chk.tier == "quick" else 40000
         for _ in range(n_random):
@@ -243,6 +256,7 @@ def run(chk, replay=None):
                 "budget 0-6, history 0-7 incl. internal repeats; draws biased to repeat history / batch / earlier redraws) "
                 "plus exhaustive enumeration of all scripts over a tiny alphabet; non-trivial = at least one pass found a "
                 "repeat; distinct = distinct (bs,budget,history,script)",
+        "signed_zero_cases": sum(1 for c in cases if c.get("negzero")),
         "samples": [{"case": cases[i], "observed_requests": observations[i]["reqs"], "observed_out": observations[i]["out"]}
                     for i in range(0, len(cases), max(1, len(cases) // 3))][:4],
         "traces_validated_against_impl": len(cases) - len(bad),
